@@ -236,6 +236,26 @@ class SplineSystem(object):
                 obj.tessellator = D['tsl']()
         return obj
 
+    def _sibling(self, src):
+        sib = type(src)() if self.desc.get('normalize_kv', True) else type(src)(normalize_kv=False)
+        pd = self.pd
+        view = src.ctrlptsw if src.rational else src.ctrlpts
+        if pd == 1:
+            sib.degree = src.degree
+            sib.set_ctrlpts(view)
+            sib.knotvector = src.knotvector
+            sib.delta = src.delta
+        else:
+            for nm in 'uvw'[:pd]:
+                setattr(sib, 'degree_' + nm, getattr(src, 'degree_' + nm))
+            sib.set_ctrlpts(view, *list(src.cpsize))
+            for nm in 'uvw'[:pd]:
+                setattr(sib, 'knotvector_' + nm, getattr(src, 'knotvector_' + nm))
+            sib.delta = src.delta
+            if pd == 2:
+                sib.tessellator = type(src.tessellator)()
+        return sib
+
     def readers(self, D):
         rs = []
         for r in READERS_ALL:
@@ -493,6 +513,34 @@ class SplineSystem(object):
                 got, exp = _safe_read(orig, r), _safe_read(f1, r)
                 ctx.check('C12.%s.copy_independent.copy_edited' % self.kind, same(got, exp),
                           dict(rc, reader=r), dict(feats, reader=r), exp, got)
+            # a second shape assembled from the first one's own views (degree, control points, knot vectors handed over as
+            # the very lists the views return) and read once: editing the first shape afterwards must leave the second one an
+            # object whose readers are those of the definition it reports
+            # (every history of the system that keeps its knot ranges - where the pinned tree does store the caller's knot
+            # list itself - and the histories up to length 2 of the others: the full depth would double the cost of the check)
+            if D0['consistent'] and (len(hist) < 2 or not self.desc.get('normalize_kv', True)):
+                src, _ = X.replay(self, hist)
+                try:
+                    sib = self._sibling(src)
+                    for r in self.readers(D0):
+                        _safe_read(sib, r)
+                except Exception:
+                    sib = None
+                if sib is not None:
+                    try:
+                        self.apply(src, op)
+                    except Exception:
+                        pass
+                    Ds = self.definition(sib)
+                    try:
+                        fs = self.fresh(Ds) if Ds['consistent'] else None
+                    except Exception:
+                        fs = None
+                    if fs is not None:
+                        for r in self.readers(Ds):
+                            got, exp = _safe_read(sib, r), _safe_read(fs, r)
+                            ctx.check('C12.%s.built_from_views.stale_after_edit_of_source' % self.kind, same(got, exp),
+                                      dict(rc, reader=r), dict(feats, reader=r), exp, got)
             # and the edited copy behaves like an edited original
             Dc = self.definition(c2)
             ctx.check('C12.%s.copy_edit_same_definition' % self.kind,
